@@ -840,8 +840,15 @@ class Engine:
             return T('apply', self.operand(body, bb, TERM_IDX, f['indirect'], depth), args)
         return self.mk_call(f['def'], f['res'], bool(f['res_local']) and bool(f['res']), args, site, node)
 
+    SIZES = {'u8': 1, 'i8': 1, 'u16': 2, 'i16': 2, 'u32': 4, 'i32': 4, 'u64': 8, 'i64': 8, 'usize': 8, 'isize': 8, 'u128': 16, 'i128': 16,
+             'curve25519_dalek::Scalar': 32, 'curve25519_dalek::ristretto::CompressedRistretto': 32}
+
     def mk_call(self, decl, res, local, args, site, node=None):
         name = res or decl
+        if decl in ('std::mem::size_of', 'core::mem::size_of') and node is not None and not args:
+            g = node['func'].get('gargs', [])
+            if len(g) == 1 and g[0] in self.SIZES:
+                return T('const', self.SIZES[g[0]])
         if decl in ('std::option::Option::<T>::unwrap_or', 'std::result::Result::<T, E>::unwrap_or') and len(args) == 2:
             # the payload when present (wrappers are transparent), the default otherwise
             return mk_phi([args[0], args[1]])
